@@ -3,9 +3,10 @@ import Driver.OpsFem
 import Driver.OpsDiffGeo
 import Driver.OpsTopo
 import Driver.OpsMesh
+import Driver.OpsSolve
 open LapyVerif.Driver
 
-def allOps : List (String × P String) := femOps ++ diffGeoOps ++ topoOps ++ meshOps
+def allOps : List (String × P String) := femOps ++ diffGeoOps ++ topoOps ++ meshOps ++ solveOps
 
 def handle (line : String) : String :=
   let toks := ((line.trimAscii.toString.splitOn " ").filter (· ≠ "")).toArray
